@@ -60,6 +60,8 @@ def run(tier, rng, rep):
                 check_gu(y, miss, lam, rep)
                 if n <= 100:
                     check_pgu(y, miss, lam, float(rng.choice([0.05, 0.5, 0.9, 0.95])), rep)
+                    if n <= 20:
+                        check_pgu(y, miss, lam, 0.5, rep, "ws2dpgu.p05")
         y, miss = gappy_series(rng, n, "random")
         check_gu(y, miss, 0.0, rep, "ws2dgu.lmda0")
         check_pgu(y, miss, 0.0, 0.9, rep, "ws2dpgu.lmda0")
@@ -71,12 +73,14 @@ def run(tier, rng, rep):
         da = xr.DataArray(cube, dims=("time", "y", "x"))
         da["time"] = np.array([np.datetime64("2001-01-01") + np.timedelta64(int(k) * 10, "D") for k in range(n)])
         sg = xr.DataArray(np.array([[1.0, -np.inf], [0.0, 2.5]]), dims=("y", "x"))
+        da = da.assign_coords(y=[0, 1], x=[0, 1]); sg = sg.assign_coords(y=[0, 1], x=[0, 1])
         for order in (("time", "y", "x"), ("y", "x", "time"), ("y", "time", "x")):
             d2 = da.transpose(*order)
-            for p in (None, 0.9):
-                for mode in ("s", "sg"):
+            for p in (None, 0.9, 0.5):
+                for mode in ("s", "sg", "sgT"):
                     rep.case("accessor.whits", {"n": n, "order": list(order), "p": p, "mode": mode})
-                    res = d2.hdc.whit.whits(ND, s=10.0, p=p) if mode == "s" else d2.hdc.whit.whits(ND, sg=sg, p=p)
+                    # sgT: the same per-pixel sgrid handed over with its dims in the other order (alignment is by name)
+                    res = d2.hdc.whit.whits(ND, s=10.0, p=p) if mode == "s" else d2.hdc.whit.whits(ND, sg=(sg if mode == "sg" else sg.transpose("x", "y")), p=p)
                     res = res.transpose("y", "x", "time").values
                     for r in range(2):
                         for c in range(2):
